@@ -83,6 +83,7 @@ func sweepInputs(n *Node) []sweepInput {
 			out = append(out,
 				sweepInput{class: "past-height", p: mk(dbft.ChangeViewType, h-1, 0, i, &changeView{newView: 1, ts: 1})},
 				sweepInput{class: "past-height", p: mk(dbft.CommitType, h-1, v, i, &commitBody{sig})},
+				sweepInput{class: "past-height", p: mk(dbft.CommitType, h-1, v+1, i, &commitBody{sig})},
 				sweepInput{class: "past-height", p: mk(dbft.PrepareRequestType, h-1, 0, i, &prepReq{ts: 5, nonce: 1})},
 				sweepInput{class: "past-height", p: mk(dbft.RecoveryRequestType, h-1, 0, i, &recReq{1})})
 			rm := &recMsg{}
@@ -164,6 +165,20 @@ func sweepInputs(n *Node) []sweepInput {
 func (n *Node) applySweep(in sweepInput) (key, msg string) {
 	before := fingerprint(n, fpSeenSkip)
 	viewBefore := n.d.ViewNumber
+	// "at most noting that their sender is alive": the per-validator last-seen record may only move forward
+	type hv struct {
+		ok   bool
+		h    uint32
+		view byte
+	}
+	var seenBefore []hv
+	for _, e := range n.ctx().LastSeenMessage {
+		if e == nil {
+			seenBefore = append(seenBefore, hv{})
+		} else {
+			seenBefore = append(seenBefore, hv{true, e.Height, e.View})
+		}
+	}
 	ops := n.t.ops
 	nb := n.broadcasts
 	viol := len(n.w.viol)
@@ -184,6 +199,16 @@ func (n *Node) applySweep(in sweepInput) (key, msg string) {
 	}
 	_ = viol // another monitor may have fired too (reported through the normal channel); the input's effect is still judged here
 	after := fingerprint(n, fpSeenSkip)
+	if ls := n.ctx().LastSeenMessage; len(ls) == len(seenBefore) && after == before {
+		for i, b := range seenBefore {
+			if !b.ok {
+				continue
+			}
+			if e := ls[i]; e == nil || e.Height < b.h || (e.Height == b.h && e.View < b.view) {
+				return "C11/last-seen-record-moved-backwards/" + in.class, fmt.Sprintf("inadmissible input made validator %d look less recently seen (was height %d view %d): %s", i, b.h, b.view, in.String())
+			}
+		}
+	}
 	switch {
 	case after != before:
 		if in.redelivery && in.p.typ == dbft.ChangeViewType && n.d.ViewNumber > viewBefore && in.p.body.(*changeView).newView == n.d.ViewNumber {
